@@ -78,6 +78,72 @@ def secondary_events(b):
     return ev
 
 
+def _advanced_locals(b):
+    advanced = set()
+    for _, bl, t, f in calls(b):
+        if f is not None and f.get("trait") in ("input::Input", "input::ValueInput", "input::BorrowInput") and f["name"] in ("next", "next_maybe", "next_ref") and len(t["args"]) > 1:
+            dp = mirq.direct_place(b, t["args"][1]["op"])
+            if dp is not None and not dp["p"]:
+                advanced.add(dp["l"])
+    return advanced
+
+
+def _structurally_hooked_reader(b):
+    """A body outside the reviewed table is accepted iff it is an InputRef method (no closure), never builds an InputRef, every
+    `&mut self.cursor` goes straight into the cursor argument of Input::next*, and every assignment to the cursor stores a
+    local that Input::next* advanced.  HOOKS-TOKEN then decides the on_token pairing on all its paths."""
+    if b.get("impl_self_adt") != "input::InputRef" or b["kind"] == "Closure":
+        return False
+    advanced = _advanced_locals(b)
+    next_cursor_args = set()
+    for _, bl, t, f in calls(b):
+        if f is not None and f.get("trait") in ("input::Input", "input::ValueInput", "input::BorrowInput") and f["name"] in ("next", "next_maybe", "next_ref") and len(t["args"]) > 1:
+            pl = mirq.operand_place(t["args"][1]["op"])
+            if pl is not None and not pl["p"]:
+                next_cursor_args.add(pl["l"])
+    n = 0
+    for _, bl, s in assigns(b):
+        rv = s["rv"]
+        if rv["k"] == "agg" and rv.get("ak") == "adt" and rv.get("adt") == "input::InputRef":
+            return False
+        if rv["k"] in ("ref", "rawptr") and rv.get("mut") and is_field(rv["place"], "input::InputRef", "cursor"):
+            # the borrow must be the temp handed to Input::next* (two-phase borrows may re-borrow once)
+            dst = s["place"]
+            if dst["p"]:
+                return False
+            holders = {dst["l"]}
+            for _, _, s2 in assigns(b):
+                r2 = s2["rv"]
+                if r2["k"] in ("ref", "rawptr") and r2["place"]["l"] in holders and all(e == "*" for e in r2["place"]["p"]) and not s2["place"]["p"]:
+                    holders.add(s2["place"]["l"])
+                if r2["k"] == "use":
+                    op = mirq.operand_place(r2["op"])
+                    if op is not None and op["l"] in holders and not op["p"] and not s2["place"]["p"]:
+                        holders.add(s2["place"]["l"])
+            if not (holders & next_cursor_args):
+                return False
+            # and nothing else receives it
+            for _, bl2, t2, f2 in calls(b):
+                for ai, a in enumerate(t2["args"]):
+                    pl = mirq.operand_place(a["op"])
+                    if pl is not None and pl["l"] in holders:
+                        isnext = f2 is not None and f2.get("trait") in ("input::Input", "input::ValueInput", "input::BorrowInput") and f2["name"] in ("next", "next_maybe", "next_ref") and ai == 1
+                        if not isnext:
+                            return False
+            n += 1
+        if is_field(s["place"], "input::InputRef", "cursor"):
+            if rv["k"] != "use":
+                return False
+            sp = mirq.direct_place(b, rv["op"])
+            if sp is None or sp["p"] or sp["l"] not in advanced:
+                return False
+            n += 1
+    for _, bl, t, f in calls(b):
+        if is_field(t["dest"], "input::InputRef", "cursor"):
+            return False
+    return n > 0
+
+
 def rule_who_may_write(facts):
     r = RuleResult("HOOKS-WRITERS")
     seen = {}
@@ -85,8 +151,15 @@ def rule_who_may_write(facts):
         evs = cursor_events(b)
         if evs:
             seen[b["qname"]] = sorted({e[0] for e in evs})
+    structural = {}
     for q, kinds in sorted(seen.items()):
         allowed = HT.CURSOR_WRITERS.get(q)
+        if allowed is None and all(_structurally_hooked_reader(b_) for b_ in facts.by_qname[q]):
+            # a new InputRef method whose only cursor effects are token advances through Input::next* (HOOKS-TOKEN decides, on
+            # every path of that body, that on_token accompanies each advance): no unhooked movement is possible
+            structural[q] = kinds
+            r.ob(True)
+            continue
         for k in kinds:
             ok = allowed is not None and k in allowed[0]
             r.ob(ok)
@@ -164,7 +237,7 @@ def rule_who_may_write(facts):
                      % (len(seen), ", ".join(sorted(x.split("::")[-1] for x in seen)), len(sec),
                         ", ".join(sorted(x.split("::")[-1] for x in sec))))
     r.nontrivial = len(seen) + len(sec)
-    r.info = {"cursor": seen, "secondary": sec}
+    r.info = {"cursor": seen, "secondary": sec, "unlisted_token_readers_accepted_structurally": structural}
     r.samples = [{"fn": q, "cursor_events": k} for q, k in sorted(seen.items())[:3]]
     r.require_floor(len(seen), facts, "HOOKS.cursor_writers", "functions touching InputRef.cursor")
     r.require_floor(len(sec), facts, "HOOKS.secondary_writers", "functions mutating errors.secondary")
@@ -173,7 +246,52 @@ def rule_who_may_write(facts):
 
 # ------------------------------------------------------------------ token readers
 
-def _token_paths(b):
+def _hooks_iff_some(h, argl):
+    """Helper body `h` receiving an Option<token> in local `argl`: does it call on_token exactly on the paths where that option is
+    Some (and never touch the cursor)?  Then a call to it stands for the inline `if let Some(t) = &token { on_token(t) }`."""
+    if cursor_events(h):
+        return False
+    refs = {}
+    for _, bl, s in assigns(h):
+        rv = s["rv"]
+        if rv["k"] == "ref" and rv["place"]["l"] == argl and not rv["place"]["p"] and not s["place"]["p"]:
+            refs[s["place"]["l"]] = argl
+    seen_some = False
+    try:
+        ps = mirq.paths(h)
+    except RuntimeError:
+        return False
+    for path in ps:
+        variant = "?"
+        hooked = False
+        for bb, idx in path:
+            bl = h["blocks"][bb]
+            t = bl["term"]
+            if t["k"] == "call":
+                f = mirq.callee_of(t)
+                if f is not None and f["name"] == "on_token" and f.get("trait") == "inspector::Inspector":
+                    hooked = True
+            if t["k"] == "switch" and idx is not None and idx != "loop":
+                op = mirq.operand_place(t["op"])
+                if op is not None:
+                    src = None
+                    for s in bl["stmts"]:
+                        if s["k"] == "assign" and s["place"]["l"] == op["l"] and s["rv"]["k"] == "discr":
+                            src = s["rv"]["place"]
+                    if src is not None and (src["l"] == argl or refs.get(src["l"]) == argl):
+                        v = mirq.switch_choice(h, bb, idx)
+                        listed = [x for x, _ in t["targets"]]
+                        variant = "Some" if v == 1 else ("None" if v == 0 else ("None" if listed == [1] else ("Some" if listed == [0] else "?")))
+        if variant == "Some":
+            seen_some = True
+            if not hooked:
+                return False
+        elif hooked:
+            return False
+    return seen_some
+
+
+def _token_paths(b, facts=None):
     """Enumerate paths; per path: advanced?, token variant (Some/None/?), on_token called with the token?"""
     res = []
     pv = Prov(b)
@@ -193,10 +311,24 @@ def _token_paths(b):
         rv = s["rv"]
         if rv["k"] == "ref" and rv["place"]["l"] in tok_locals and not s["place"]["p"]:
             refs[s["place"]["l"]] = rv["place"]["l"]
+    # a private InputRef helper that is handed the token and reports it iff it is Some (extracted tail of the readers)
+    helper_calls = set()
+    if facts is not None:
+        for i, bl, t, f in calls(b):
+            if f is None or f.get("krate") != "chumsky" or f.get("self_adt") != "input::InputRef":
+                continue
+            hs = facts.by_qname.get("input::InputRef::" + f["name"]) or []
+            if len(hs) != 1:
+                continue
+            for ai, a in enumerate(t["args"]):
+                dp = mirq.direct_place(b, a["op"])
+                if dp is not None and not dp["p"] and dp["l"] in tok_locals and _hooks_iff_some(hs[0], ai + 1):
+                    helper_calls.add(i)
     for path in mirq.paths(b):
         advanced = False
         variant = "?"
         hooked = False
+        cond_hook = False
         wrote_cursor = False
         for (bb, idx) in path:
             bl = b["blocks"][bb]
@@ -210,6 +342,9 @@ def _token_paths(b):
                     advanced = True
                 if f is not None and f["name"] == "on_token" and f.get("trait") == "inspector::Inspector":
                     hooked = True
+                if bb in helper_calls:
+                    hooked = True
+                    cond_hook = True
             if t["k"] == "switch" and idx is not None and idx != "loop":
                 # switch on discriminant of the token?
                 op = mirq.operand_place(t["op"])
@@ -229,6 +364,8 @@ def _token_paths(b):
                             # otherwise branch: the complement of the listed values
                             listed = [x for x, _ in t["targets"]]
                             variant = "None" if listed == [1] else ("Some" if listed == [0] else "?")
+        if cond_hook and variant == "None":
+            hooked = False          # the helper reports only a Some
         res.append((advanced or wrote_cursor, variant, hooked))
     return res
 
@@ -245,7 +382,7 @@ def rule_token_hooks(facts):
             continue
         readers.append(b)
         try:
-            ps = _token_paths(b)
+            ps = _token_paths(b, facts)
         except RuntimeError as e:
             r.errors.append(str(e))
             continue
